@@ -305,6 +305,23 @@ impl<M: Bit> MatrixMap<M> {
     }
 }
 
+/// Read-only access for the external verification harness (`--cfg datamatrix_verif`).
+#[cfg(datamatrix_verif)]
+impl<M: Bit> MatrixMap<M> {
+    /// The mapping-matrix entries in row-major order.
+    pub fn verif_entries(&self) -> &[M] {
+        &self.entries
+    }
+
+    /// A map of the given size with the given entries (`entries.len()` must be the content size).
+    pub fn verif_from_entries(size: SymbolSize, entries: Vec<M>) -> Self {
+        let mut m = Self::new(size);
+        assert_eq!(m.entries.len(), entries.len());
+        m.entries = entries;
+        m
+    }
+}
+
 struct IndexTraversal {
     width: usize,
     height: usize,
